@@ -16,6 +16,8 @@ Oracle construction (DESIGN section 3):
 """
 from fractions import Fraction
 
+import math
+
 import numpy as np
 
 from .. import install
@@ -550,14 +552,20 @@ def make_lf_r2_post(R2enum):
         if n == 2:
             return ctx.check(res == 1.0, 'lf.r2:pearson', 'lf.r2:two-points', f'lf.r2 = {res!r} for two points', got=res, **w)
         sxx, syy, sxy = line_r2_reference(x, y)
-        if sxx < 1e-9 * xs * xs or syy < 1e-9 * ys * ys:
-            return ctx.ood('lf.r2', 'Sxx or Syy < 1e-9*scale^2 (cancellation)')
+        # A centred (two-pass) evaluation in float64 only suffers from the rounding of the two means: a common shift delta of
+        # all deviations changes Sxx by n*delta^2 (the first-order term vanishes because the deviations sum to 0), i.e. the
+        # correlation by about (delta_x/sigma_x + delta_y/sigma_y)^2, with delta <= eps*|x|max*(log2(n)+1) for a pairwise sum.
+        lg = math.log2(n) + 1.0
+        cx = EPS * xs * lg / math.sqrt(float(sxx) / n)
+        cy = EPS * ys * lg / math.sqrt(float(syy) / n)
+        if cx > 1e-3 or cy > 1e-3:
+            return ctx.ood('lf.r2', 'level/spread > 1e-3/eps (the means are not resolved in float64)')
         ref = sxy * sxy / (sxx * syy)
         mon, clause = 'lf.r2:pearson', 'lf.r2:pearson'
         if adjusted:
             ref = 1 - (1 - ref) * LD(n - 1) / LD(n - 2)
             mon, clause = 'lf.r2:adjusted', 'lf.r2:adjusted'
-        tol = LD(RTOL) * k * max(LD(1), abs(ref))
+        tol = LD(RTOL) * k * max(LD(1), abs(ref)) + LD(8.0 * (cx + cy) ** 2) * k
         err = abs(LD(res) - ref)
         if ctx.check(bool(err <= tol), mon, clause,
                      f'lf.r2 ({kind}) = {res!r}, squared Pearson correlation'
@@ -668,6 +676,8 @@ def gen_x(rng, n, want_int):
     if pat == 5:
         # large offset, tiny relative span (timestamps, byte offsets): x[0] and x[-1] differ by ~1e-7..1e-12 relative
         off = float(int(10.0 ** rng.uniform(6, 12)))
+        if rng.random() < 0.25:
+            off = float(int(rng.uniform(1.6e12, 1.8e12)))         # epoch milliseconds
         x = off + np.cumsum(rng.integers(1, 5, n)).astype(float)
         return x, pat
     if pat == 0:
